@@ -163,8 +163,8 @@ def judge(path, expect, cfg, tags):
         V.append({"what": "parsed mesh edges are not exactly the edges that belong to a face", "detail": {"extra": sorted(set(e) - set(expect["e"]))[:5], "missing": sorted(set(expect["e"]) - set(e))[:5]}})
     else:
         for k, ((a, b), d) in expect["e"].items():
-            if (e[k].v1.id, e[k].v2.id) != (a, b):
-                V.append({"what": "mesh edge does not join the recorded vertices (in the recorded order)", "detail": {"id": k, "got": [e[k].v1.id, e[k].v2.id], "exp": [a, b]}})
+            if {e[k].v1.id, e[k].v2.id} != {a, b}:
+                V.append({"what": "mesh edge does not join the recorded vertices", "detail": {"id": k, "got": [e[k].v1.id, e[k].v2.id], "exp": [a, b]}})
                 break
             if abs(e[k].gt - d) > 1e-12:
                 V.append({"what": "reference tension is not the recorded density (4 decimals; 1 if absent)", "detail": {"id": k, "got": e[k].gt, "exp": d}})
